@@ -336,7 +336,7 @@ ENTITY_SCRIPT = '''
 import os, sys, json
 sys.path.insert(0, os.environ['REPO']); sys.path.insert(0, %r)
 from harness import c20
-print(json.dumps(c20.silent_peer_case({'busy': 0, 'wait': 14})))
+print(json.dumps(c20.refusals_case({'refused': 6, 'wait': 13}) or c20.silent_peer_case({'busy': 0, 'wait': 14})))
 '''
 
 
@@ -468,7 +468,7 @@ def run(chk):
                 'silent for ever after every turn (clock advanced past ARTIM), a transport write failing during every turn, the peer not reading for half a minute during every turn (a blocking send just takes longer), a stop '
                 'requested at every quiescent point (run() in a real thread: a stop() that succeeds ends the loop and only in the idle, closed state; kill() returns - also after the loop has ended with an exception); '
                 'oracle: no pass blocks, the loop does not die, final state idle, socket closed and dropped, ARTIM stopped, '
-                'the user told when an association had been indicated; a peer whose bytes keep coming without ever completing a PDU (Sta2, Sta6); and a real accepting entity on loopback TCP whose peer never sends its first PDU (closed at ARTIM); non-trivial = faults that strike mid-conversation')
+                'the user told when an association had been indicated; a peer whose bytes keep coming without ever completing a PDU (Sta2, Sta6); and a real accepting entity on loopback TCP whose peer never sends its first PDU (closed at ARTIM) or stays connected after being refused; non-trivial = faults that strike mid-conversation')
     chk.trusted += ['harness/s2.py: a recv() on a blocking socket with nothing to read is reported as blocking for ever',
                     'OS behaviour assumed: sendall() and connect() return (or raise) in bounded time']
     convs = conversations()
